@@ -212,6 +212,7 @@ func runD53Soak(n int) string {
 func init() {
 	areas["staleq"] = func(c *Ctx) error {
 		run := func(l string) {
+			c.Note(l)
 			f := strings.Fields(l)
 			if len(f) == 2 && f[0] == "d53soak" {
 				n, _ := strconv.Atoi(f[1])
